@@ -178,9 +178,12 @@ def render_tree(case, src, logfile):
     if case['common']:
         sandbox.write_file(
             os.path.join(src, 'common', 'build.bfg'),
-            'import json\ncommon_var = 1\nexport(shared="from-common")\n'
+            'import json\n_p = {{}}\nfor _n in ["common_var", "_p2"]:\n'
+            '    try:\n        eval(_n)\n        _p[_n] = "visible"\n'
+            '    except NameError:\n        _p[_n] = "NameError"\n'
+            'common_var = 1\n_p2 = 2\nexport(shared="from-common")\n'
             'with open({!r}, "a") as _f:\n    _f.write(json.dumps({{"dir": '
-            '"common", "probes": {{}}, "received": {{}}, "builtins": [], '
+            '"common", "probes": _p, "received": {{}}, "builtins": [], '
             '"own_after": {{}}}}) + "\\n")\n'.format(logfile))
 
 
@@ -220,6 +223,13 @@ def prop_submodules(rec):
                     d = json.loads(line)
                     logs[d['dir']] = d
                     count[d['dir']] = count.get(d['dir'], 0) + 1
+                    if d['dir'] == 'common' and 'visible' in \
+                            d['probes'].values():
+                        raise Violation(
+                            'sub/scope-leak/repeated-inclusion', 'execution '
+                            '#{} of the script included from several parents '
+                            'sees the variables of an earlier execution: {}'
+                            .format(count['common'], d['probes']), case)
             for i, node in enumerate(nodes):
                 d = node['dir']
                 if count.get(d) != 1:
@@ -342,7 +352,7 @@ def prop_submodules(rec):
 # (B) project-defined arguments
 
 ARGNAMES = ['name', 'level', 'my-opt', 'feat', 'foo-bar', 'gui', 'tests',
-            'n']
+            'n', 'xml', 'x11', 'xx']
 
 
 @st.composite
